@@ -8,6 +8,7 @@ import (
 	"fmt"
 	"go/token"
 	"go/types"
+	"os"
 	"sort"
 	"strings"
 
@@ -198,6 +199,16 @@ func BuildLockset(p *Prog, shorts ...string) *Lockset {
 	for _, f := range ls.fns {
 		ls.flow(f)
 	}
+	if dbg := os.Getenv("SPINEDEBUG_LS"); dbg != "" {
+		for _, f := range ls.fns {
+			if strings.Contains(f.String(), dbg) {
+				fmt.Fprintf(os.Stderr, "LS %s entry=%v emptyEntry=%v callers=%d\n", f, ls.entry[f], ls.hasEmptyEntry(f), len(p.Callers(f)))
+				for _, s := range p.Callers(f) {
+					fmt.Fprintf(os.Stderr, "   caller %s at=%v\n", s.Parent(), ls.at[s.(ssa.Instruction)])
+				}
+			}
+		}
+	}
 	ls.computeCtorFns()
 	for _, f := range ls.fns {
 		if !isWrapper(f) {
@@ -281,6 +292,9 @@ func (ls *Lockset) entryFromCallers(f *ssa.Function) (LockSet, bool) {
 	var res LockSet
 	first := true
 	for _, site := range ls.p.Callers(f) {
+		if w := site.Parent(); isWrapper(w) && !isExportedFn(w) && len(ls.p.Callers(w)) == 0 {
+			continue // synthetic wrapper of an unexported method (promotion through embedding) that nothing calls
+		}
 		cl, ok := ls.at[site.(ssa.Instruction)]
 		if !ok {
 			if _, analysed := ls.entry[site.Parent()]; !analysed {
